@@ -130,7 +130,10 @@ Proof.
 Qed.
 
 Lemma RM_define_segment sp l : RM (define_segment sp l).
-Proof. unfold define_segment. destruct (validate_segment sp l); [|apply RM_fail]. rm2. Qed.
+Proof.
+  unfold define_segment. destruct (validate_segment sp l); [|apply RM_fail]. rm2.
+  unfold install_checked. rm2.
+Qed.
 
 Lemma RM_loop_iterations body : (forall i, RM (body i)) -> forall fuel i n, RM (loop_iterations fuel i n body).
 Proof.
